@@ -314,6 +314,8 @@ impl Node {
                 }
             }
 
+            #[cfg(edp_rs_verif)]
+            edp_client::verif::point("recv.before_remove").await;
             connections.remove(&remote_node_clone);
             tracing::debug!(
                 "Receiver task for {} terminated, connection removed",
@@ -337,6 +339,8 @@ impl Node {
                         handle.send(Message::Regular { from: None, body }).await?;
                     } else {
                         let pid_str = format!("{}.{}.{}", pid.id, pid.serial, pid.creation);
+                        #[cfg(edp_rs_verif)]
+                        edp_client::verif::point("route.send.miss").await;
                         if let Some((_key, sender)) = pending_rpcs.remove(&pid_str) {
                             let _ = sender.send(body);
                         }
@@ -402,6 +406,8 @@ impl Node {
             .expect("PID allocator lock poisoned");
 
         let handle = spawn_process(process, mailbox, self.registry.clone(), pid.clone()).await;
+        #[cfg(edp_rs_verif)]
+        edp_client::verif::point("spawn.before_registry_insert").await;
 
         self.registry.insert(pid.clone(), handle).await;
 
@@ -468,6 +474,8 @@ impl Node {
                 .pid_allocator
                 .allocate()
                 .expect("PID allocator lock poisoned");
+            #[cfg(edp_rs_verif)]
+            edp_client::verif::point("send.before_lock").await;
             let mut conn_guard = conn.lock().await;
             conn_guard.send_message(from, to.clone(), message).await?;
             Ok(())
@@ -535,7 +543,11 @@ impl Node {
 
     pub fn make_reference(&self) -> ExternalReference {
         let id0 = self.reference_counter.fetch_add(1, Ordering::SeqCst);
+        #[cfg(edp_rs_verif)]
+        edp_client::verif::sync_point("make_reference.after_id0");
         let id1 = self.reference_counter.fetch_add(1, Ordering::SeqCst);
+        #[cfg(edp_rs_verif)]
+        edp_client::verif::sync_point("make_reference.after_id1");
         let id2 = self.reference_counter.fetch_add(1, Ordering::SeqCst);
         ExternalReference::new(
             self.name.clone(),
@@ -619,6 +631,12 @@ impl Node {
         &self.cookie
     }
 
+    /// Number of remote calls still registered as waiting for a reply (verification only).
+    #[cfg(edp_rs_verif)]
+    pub fn pending_rpc_count(&self) -> usize {
+        self.pending_rpcs.len()
+    }
+
     pub async fn rpc_call(
         &self,
         remote_node: &str,
@@ -667,6 +685,8 @@ impl Node {
             .pid_allocator
             .allocate()
             .expect("PID allocator lock poisoned");
+        #[cfg(edp_rs_verif)]
+        edp_client::verif::point("rpc.after_alloc").await;
 
         let call_request = OwnedTerm::Tuple(vec![
             OwnedTerm::Pid(reply_to_pid.clone()),
@@ -685,6 +705,8 @@ impl Node {
             reply_to_pid.id, reply_to_pid.serial, reply_to_pid.creation
         );
         self.pending_rpcs.insert(pid_str.clone(), tx);
+        #[cfg(edp_rs_verif)]
+        edp_client::verif::point("rpc.after_insert").await;
 
         tracing::debug!("RPC call_request: {:?}", call_request);
         tracing::debug!("RPC reply_to_pid: {:?}", reply_to_pid);
@@ -697,6 +719,8 @@ impl Node {
             .map(|c| Arc::clone(c.value()));
         if let Some(conn) = conn {
             tracing::trace!("Found connection, sending to rex");
+            #[cfg(edp_rs_verif)]
+            edp_client::verif::point("rpc.before_lock").await;
             let mut conn_guard = conn.lock().await;
             if let Err(e) = conn_guard
                 .send_to_name(reply_to_pid, Atom::new("rex"), call_request)
@@ -713,7 +737,13 @@ impl Node {
             return Err(Error::NodeNotConnected(remote_node.to_string()));
         }
 
+        #[cfg(edp_rs_verif)]
+        edp_client::verif::point("rpc.after_send").await;
+
         let response = tokio::time::timeout(timeout, rx).await;
+
+        #[cfg(edp_rs_verif)]
+        edp_client::verif::point("rpc.after_wait").await;
 
         if response.is_err() {
             self.pending_rpcs.remove(&pid_str);
